@@ -33,6 +33,7 @@ GEOMS = {
     "g2_16_4_4": (2, 16, 4, 4), "g4_2_1_1": (4, 2, 1, 1), "g1_128_2_1": (1, 128, 2, 1), "g1_6_4_2": (1, 6, 4, 2),
     "g2_32_3_1": (2, 32, 3, 1),  # string length type narrower than the slot id type
     "g1_5_2_1": (1, 5, 2, 1), "g1_15_4_2": (1, 15, 4, 2), "g2_255_2_2": (2, 255, 2, 2),  # capacity divides NULL_SLOT
+    "g1_128_4_1": (1, 128, 4, 1), "g1_255_2_1": (1, 255, 2, 1),  # more inline pools than the slot ids can address
 }
 for _k, _v in GEOMS.items():
     CONFIGS[_k] = geom(*_v)
@@ -346,6 +347,37 @@ PROPS["C10"]["fuzz_max_len"] = 512
 PROPS["C03"]["fuzz_raw_seeds"] = [("extras/fuzzing/json_seed_corpus", [0, 0, 0, 0, 1]), ("extras/fuzzing/msgpack_seed_corpus", [4, 0, 0, 0, 1])]
 PROPS["C03"]["fuzz_dict"] = "corpus/json.dict"
 PROPS["C03"]["fuzz_max_len"] = 700
+
+# C01 "whatever the destination held before is entirely replaced": also on a geometry where every
+# document of more than two slots needs a heap pool table (1 inline pool of 2 slots)
+PROPS["C01"]["quick"].update({"configs": ["default", "g2_2_1_4"], "per_config": {"g2_2_1_4": {"cases": 300000}}})
+PROPS["C01"]["thorough"].update({"configs": ["default", "g2_2_1_4"], "per_config": {"g2_2_1_4": {"cases": 4000000}}})
+
+# C15: the stack bound is also measured with comments enabled (comment skipping is part of the parser's recursion)
+PROPS["C15"]["quick"].update({"configs": ["default", "dial1111"], "per_config": {"dial1111": {"cases": 300000}}})
+PROPS["C15"]["thorough"].update({"configs": ["default", "dial1111"], "per_config": {"dial1111": {"cases": 2000000}}})
+
+# C07 also with JsonFloat = float (the float instantiation of the number printer / MessagePack narrowing)
+PROPS["C07"]["quick"].update({"configs": ["default", "num01"], "per_config": {"num01": {"cases": 400000}}})
+PROPS["C07"]["thorough"].update({"configs": ["default", "num01"], "per_config": {"num01": {"cases": 3000000}}})
+
+# C18 also with JsonFloat = float: mixed comparisons must still be made as doubles
+PROPS["C18"]["quick"].update({"configs": ["default", "num01"], "per_config": {"num01": {"cases": 200000}}})
+PROPS["C18"]["thorough"].update({"configs": ["default", "num01"], "per_config": {"num01": {"cases": 2000000}}})
+
+# C20: a fresh process whose first documents are created by concurrent threads (both builds)
+PROPS["C20"]["regress"] = ["cold_start"]
+PROPS["C20"]["quick"]["regress_all_configs"] = True
+PROPS["C20"]["thorough"]["regress_all_configs"] = True
+
+# second group of libFuzzer targets (structure-aware decoding of the same generators; C09 also raw bytes)
+for _id in ("C02", "C06", "C07", "C08", "C09", "C14", "C16", "C18"):
+    PROPS[_id]["fuzz"] = True
+    PROPS[_id]["thorough"]["fuzz_s"] = 240
+PROPS["C09"]["fuzz_raw_seeds"] = [("extras/fuzzing/msgpack_seed_corpus", [1, 10])]
+PROPS["C09"]["fuzz_max_len"] = 600
+PROPS["C06"]["fuzz_max_len"] = 2048
+PROPS["C14"]["fuzz_max_len"] = 2048
 
 PROPS["C02"]["quick"].update({"cases": 200000, "floor_evaluations": 300000, "floor_nontrivial": 60000, "require_labels": ["doc-from-history", "doc-from-json", "doc-from-msgpack"]})
 PROPS["C08"]["quick"].update({"cases": 250000, "floor_evaluations": 400000, "floor_nontrivial": 60000, "require_labels": ["doc-from-history", "large-item"]})
